@@ -15,14 +15,185 @@ import (
 	"verifharness/vlib"
 )
 
-// runThrottle: "handler starts no faster than the configured rate".
+// "handler starts no faster than the configured rate" - two workload classes share one recorder and one oracle.
 //
-// Oracle (lower bounds only): t0 is taken just before NewThrottle. The ticker cannot deliver its
-// i-th tick before creation + i*period, every handler start consumes one distinct tick, hence the
-// i-th handler start (1-based, in time order, over all goroutines sharing the Throttle) must not
-// precede t0 + i*period. This bound is independent of machine lateness (lateness only makes starts
-// later), so no inconclusive branch is needed; the span of the n starts is reported as a counter.
-// Transparency (outputs / error of every call unchanged) is judged as well.
+// What is recorded per call through the Throttle (at the boundary, wall clock, monotonic):
+//
+//	b = time.Now() just before the wrapped handler function is invoked,
+//	t = time.Now() as the first statement of the inner handler.
+//
+// The moment c at which the call obtained its permission to start lies in [b, t]; nothing else is assumed
+// about it (the goroutine can be descheduled for arbitrarily long anywhere between b, c and t).
+//
+// Oracle clauses (lower bounds / bracketing only, see throttleJudge):
+//
+//	throttle-rate   the i-th start (1-based, time order) cannot precede creation + i*period.
+//	throttle-burst  M starts that provably all happened inside one window [A,B] (b >= A and t <= B for each
+//	                of them) need B-A > (M-4)*period.
+//
+// Why (M-4) and not more. NewThrottle(count, duration) documents "count messages per duration"; the rate is
+// one start per period = duration/count. The reference semantics is the one of the time.Ticker the
+// middleware is built on (time.NewTicker godoc: "The ticker will adjust the time interval or drop ticks to make
+// up for slow receivers", channel capacity 1): ticks are due at creation + i*period, every start consumes one
+// distinct tick, a tick cannot be consumed before it is due, at most ONE fired tick waits for a consumer, and
+// the runtime never fires the same due time twice (next = when + period*(1+(now-when)/period) > now).
+// Let c_1 <= ... <= c_M be the consumption times of M consecutive starts and w_j the due time of the tick
+// consumed by c_j. Tick j+1 can only be stored/handed over when tick j has been taken out (capacity 1), so its
+// firing f_{j+1} > c_j; w_{j+2} > f_{j+1}; hence c_M >= w_M >= w_3 + (M-3)*period > c_1 + (M-3)*period.
+// The bound (M-3)*period is attained by correct code: an old tick is consumed just before a LATE tick fires
+// (lateness close to one period, common on a loaded machine), which is just before the next due time - three
+// starts at one instant; a stand-alone stress experiment on time.Ticker under 2x CPU oversubscription showed
+// windows down to (M-3)*period + 0.06 period, so the often quoted "(M-2) periods" is NOT sound under load.
+// One further period is given away for the only remaining imprecision, the gap between the runtime reading
+// the clock and performing the channel send of one firing (non-preemptible for the Go scheduler, but the OS
+// may preempt the thread there). Machine lateness otherwise only moves starts later and widens [b,t], which
+// makes windows longer and M smaller, never a violation.
+// A Throttle that hands out saved-up permissions (token bucket with burst size > 1, ticks forwarded to a larger
+// buffer, a limiter that credits idle time, several permissions per tick) shows M >= 5 starts in a window far
+// shorter than (M-4) periods as soon as a backlog arrives after an idle or under-used phase.
+type throttleCall struct {
+	b, t time.Time
+	grp  int // arrival group (burst / trickle number), for the sample only
+}
+
+type throttleRec struct {
+	id   string
+	th   *middleware.Throttle
+	mu   sync.Mutex
+	done []throttleCall
+	bad  []string
+	hits atomic.Int32 // handler invocations
+}
+
+type throttleRet struct {
+	outs []*message.Message
+	err  error
+}
+
+// plan draws the handler result of one call (deterministic per case: called from the case goroutine only).
+func (tr *throttleRec) plan(r *vlib.Rand, i int) throttleRet {
+	var want throttleRet
+	if r.Bool() {
+		want.err = errors.New(fmt.Sprintf("e%d", i))
+	}
+	for j := r.Intn(3); j > 0; j-- {
+		want.outs = append(want.outs, message.NewMessage(fmt.Sprintf("%s-t%d.%d", tr.id, i, j), nil))
+	}
+	return want
+}
+
+// call sends one message through the Throttle and records the bracket of its start; transparency of the
+// call (outputs, error, message untouched) is judged as well.
+func (tr *throttleRec) call(i, grp int, want throttleRet) {
+	var t time.Time
+	h := tr.th.Middleware(func(m *message.Message) ([]*message.Message, error) {
+		t = time.Now()
+		tr.hits.Add(1)
+		return want.outs, want.err
+	})
+	msg := message.NewMessage(fmt.Sprintf("%s-tm%d", tr.id, i), nil)
+	// the rate limit does not depend on the message: some messages arrive with a context that has already
+	// ended (cancelled, or an expired deadline as an outer Timeout shorter than the period would leave)
+	switch i % 4 {
+	case 1:
+		cctx, cancel := context.WithCancel(context.Background())
+		cancel()
+		msg.SetContext(cctx)
+	case 3:
+		dctx, cancel := context.WithDeadline(context.Background(), time.Now().Add(-time.Second))
+		defer cancel()
+		msg.SetContext(dctx)
+	}
+	b := time.Now()
+	outs, err := h(msg)
+	same := err == want.err && len(outs) == len(want.outs)
+	for j := 0; same && j < len(outs); j++ {
+		same = outs[j] == want.outs[j]
+	}
+	tr.mu.Lock()
+	defer tr.mu.Unlock()
+	if !t.IsZero() {
+		tr.done = append(tr.done, throttleCall{b: b, t: t, grp: grp})
+	}
+	if !same || vlib.Settled(msg) != "" || len(msg.Metadata) != 0 {
+		tr.bad = append(tr.bad, fmt.Sprintf("call %d: outs/err/message changed (err %v want %v, %d outs want %d, settled %q)", i, err, want.err, len(outs), len(want.outs), vlib.Settled(msg)))
+	}
+}
+
+// throttleJudge applies both rate clauses to the n recorded calls. t0 was taken just before NewThrottle.
+func throttleJudge(res *vlib.Result, tr *throttleRec, n int, t0 time.Time, period time.Duration, cfg string) bool {
+	tr.mu.Lock()
+	defer tr.mu.Unlock()
+	calls := tr.done
+	res.Events = len(calls)
+	if len(tr.bad) > 0 {
+		res.Fail("outputs-identity", "%s | %s", tr.bad[0], cfg)
+		return false
+	}
+	if hits := int(tr.hits.Load()); len(calls) != n || hits != n {
+		res.Fail("handler-calls", "%d calls made, handler started %d times (in %d of the calls) | %s", n, hits, len(calls), cfg)
+		return false
+	}
+	sort.Slice(calls, func(a, b int) bool { return calls[a].t.Before(calls[b].t) })
+	us := func(t time.Time) string { return t.Sub(t0).Round(10 * time.Microsecond).String() }
+	offs := make([]string, n)
+	for i, c := range calls {
+		offs[i] = fmt.Sprintf("g%d %s..%s", c.grp, us(c.b), us(c.t))
+	}
+	sample := map[string]any{"config": cfg, "calls": offs}
+
+	// throttle-rate: every start consumes one distinct tick and tick i is not due before creation + i*period
+	for i, c := range calls {
+		if min := time.Duration(i+1) * period; c.t.Sub(t0) < min {
+			res.Fail("throttle-rate", "handler start #%d happened %v after the Throttle was created; at one start per %v it cannot precede %v (calls: %v) | %s",
+				i+1, c.t.Sub(t0), period, min, offs, cfg)
+			res.Witness = sample
+			return false
+		}
+	}
+
+	// throttle-burst: windows [A,B] with A = some b, B = some t; M = calls certainly inside
+	windows, tight := 0, 0
+	for _, a := range calls {
+		for _, z := range calls {
+			A, B := a.b, z.t
+			if B.Before(A) {
+				continue
+			}
+			m := 0
+			for _, c := range calls {
+				if !c.b.Before(A) && !c.t.After(B) {
+					m++
+				}
+			}
+			if m < 3 {
+				continue
+			}
+			windows++
+			L := B.Sub(A)
+			if L < time.Duration(m-2)*period {
+				tight++ // a saved tick (and/or a late one) was visible: fewer than M-2 whole periods for M starts
+			}
+			if m >= 5 && L < time.Duration(m-4)*period {
+				res.Fail("throttle-burst", "%d handler starts happened within %v (all of them invoked after +%s and started by +%s); at one start per %v with at most one saved tick %d starts need more than %v (calls: %v) | %s",
+					m, L, us(A), us(B), period, m, time.Duration(m-3)*period, offs, cfg)
+				res.Witness = sample
+				return false
+			}
+		}
+	}
+	span := calls[n-1].t.Sub(calls[0].t)
+	res.Count("starts", n)
+	res.Count("span_ms", int(span/time.Millisecond))
+	res.Count("nominal_span_ms", int(time.Duration(n-1)*period/time.Millisecond))
+	res.Count("burst_windows_judged", windows)
+	res.Count("burst_windows_below_M_minus_2_periods", tight)
+	res.Sample = sample
+	return true
+}
+
+// runThrottle (class "throttle"): continuous backlog from creation on, 1..3 goroutines sharing the Throttle,
+// sometimes one pause of 3 periods in one of them.
 func runThrottle(e *vlib.Env) vlib.Result {
 	res := vlib.Result{Class: "throttle"}
 	r := e.R
@@ -36,25 +207,14 @@ func runThrottle(e *vlib.Env) vlib.Result {
 	}
 	cfg := fmt.Sprintf("NewThrottle(%d, %v) period=%v starts=%d goroutines=%d idleBefore=%d", count, period*time.Duration(count), period, n, g, idleAt)
 
-	var mu sync.Mutex
-	var starts []time.Time
-	var bad []string
-	type ret struct {
-		outs []*message.Message
-		err  error
-	}
-	rets := make([]ret, n+1)
+	tr := &throttleRec{id: e.ID()}
+	rets := make([]throttleRet, n+1)
 	for i := range rets {
-		if r.Bool() {
-			rets[i].err = errors.New(fmt.Sprintf("e%d", i))
-		}
-		for j := r.Intn(3); j > 0; j-- {
-			rets[i].outs = append(rets[i].outs, message.NewMessage(fmt.Sprintf("%s-t%d.%d", e.ID(), i, j), nil))
-		}
+		rets[i] = tr.plan(r, i)
 	}
 	t0 := time.Now()
-	th := middleware.NewThrottle(count, period*time.Duration(count))
-	defer stopThrottle(th)
+	tr.th = middleware.NewThrottle(count, period*time.Duration(count))
+	defer stopThrottle(tr.th)
 	var next atomic.Int32
 	var wg sync.WaitGroup
 	for w := 0; w < g; w++ {
@@ -69,46 +229,13 @@ func runThrottle(e *vlib.Env) vlib.Result {
 				if i == idleAt {
 					vlib.TimerWait(3 * period)
 				}
-				want := rets[i]
-				h := th.Middleware(func(m *message.Message) ([]*message.Message, error) {
-					t := time.Now()
-					mu.Lock()
-					starts = append(starts, t)
-					mu.Unlock()
-					return want.outs, want.err
-				})
-				msg := message.NewMessage(fmt.Sprintf("%s-tm%d", e.ID(), i), nil)
-				// the rate limit does not depend on the message: some messages arrive with a context that has already
-				// ended (cancelled, or an expired deadline as an outer Timeout shorter than the period would leave)
-				switch i % 4 {
-				case 1:
-					cctx, cancel := context.WithCancel(context.Background())
-					cancel()
-					msg.SetContext(cctx)
-				case 3:
-					dctx, cancel := context.WithDeadline(context.Background(), time.Now().Add(-time.Second))
-					defer cancel()
-					msg.SetContext(dctx)
-				}
-				outs, err := h(msg)
-				same := err == want.err && len(outs) == len(want.outs)
-				for j := 0; same && j < len(outs); j++ {
-					same = outs[j] == want.outs[j]
-				}
-				if !same || vlib.Settled(msg) != "" || len(msg.Metadata) != 0 {
-					mu.Lock()
-					bad = append(bad, fmt.Sprintf("call %d: outs/err/message changed (err %v want %v, %d outs want %d, settled %q)", i, err, want.err, len(outs), len(want.outs), vlib.Settled(msg)))
-					mu.Unlock()
-				}
+				tr.call(i, 0, rets[i])
 			}
 		}()
 	}
 	done := make(chan struct{})
 	go func() { wg.Wait(); close(done) }()
 	oc, dump := vlib.WaitClosed(done, waitOpts())
-	mu.Lock()
-	defer mu.Unlock()
-	res.Events = len(starts)
 	res.Sig = vlib.Sig("throttle", cfg)
 	switch oc {
 	case vlib.Stuck:
@@ -119,35 +246,147 @@ func runThrottle(e *vlib.Env) vlib.Result {
 		res.Inconclusive("throttled calls did not finish before the watchdog | %s", cfg)
 		return res
 	}
-	if len(bad) > 0 {
-		res.Fail("outputs-identity", "%s | %s", bad[0], cfg)
+	if !throttleJudge(&res, tr, n, t0, period, cfg) {
 		return res
-	}
-	if len(starts) != n {
-		res.Fail("handler-calls", "%d calls made, handler started %d times | %s", n, len(starts), cfg)
-		return res
-	}
-	sort.Slice(starts, func(a, b int) bool { return starts[a].Before(starts[b]) })
-	offs := make([]string, n)
-	for i, s := range starts {
-		offs[i] = s.Sub(t0).Round(10 * time.Microsecond).String()
-	}
-	for i, s := range starts {
-		if min := time.Duration(i+1) * period; s.Sub(t0) < min {
-			res.Fail("throttle-rate", "handler start #%d happened %v after the Throttle was created; at one start per %v it cannot precede %v (all start offsets: %v) | %s",
-				i+1, s.Sub(t0), period, min, offs, cfg)
-			res.Witness = map[string]any{"config": cfg, "start_offsets": offs}
-			return res
-		}
-	}
-	span := starts[n-1].Sub(starts[0])
-	res.Count("starts", n)
-	res.Count("span_ms", int(span/time.Millisecond))
-	res.Count("nominal_span_ms", int(time.Duration(n-1)*period/time.Millisecond))
-	if span < time.Duration(n-3)*period {
-		res.Count("span_below_n_minus_3_periods", 1) // only possible when the first start was >= 2 periods late (machine lateness)
 	}
 	res.NonTrivial = true
-	res.Sample = map[string]any{"config": cfg, "start_offsets": offs}
+	return res
+}
+
+// runThrottleArrivals (class "throttle-arrivals"): the Throttle sees 1..3 arrival groups one after another, each a
+// backlog ("burst") of 6..14 messages that arrive at the same moment, spread over 1, 2..4 or as many goroutines
+// as messages (every message its own handler goroutine, as a Router with several handlers sharing the
+// middleware would do), each burst preceded by
+//
+//	none     (first group only) the backlog is there from creation on,
+//	idle     no traffic at all for 3..14 periods,
+//	trickle  3..6 messages arriving one at a time 2..3 periods apart (traffic below the configured rate).
+//
+// The next group begins when the previous backlog has been worked off.
+func runThrottleArrivals(e *vlib.Env) vlib.Result {
+	res := vlib.Result{Class: "throttle-arrivals"}
+	r := e.R
+	period := time.Duration(r.Range(2000, 8000)) * time.Microsecond
+	count := int64([]int{1, 2, 3, 5, 8, 10, 50, r.Range(4, 100)}[r.Intn(8)])
+	type group struct {
+		Before  string // none | idle | trickle
+		Periods int    // idle: length in periods; trickle: gap between arrivals in half periods
+		Trickle int    // number of trickled messages
+		Burst   int
+		G       int
+	}
+	ng := r.Range(1, 3)
+	groups := make([]group, ng)
+	n := 0
+	for k := range groups {
+		gr := group{Burst: r.Range(6, 14)}
+		switch x := r.Intn(10); {
+		case k == 0 && x < 2:
+			gr.Before = "none"
+		case x < 7:
+			gr.Before, gr.Periods = "idle", r.Range(3, 14)
+		default:
+			gr.Before, gr.Periods, gr.Trickle = "trickle", r.Range(4, 6), r.Range(3, 6)
+		}
+		switch r.Intn(3) {
+		case 0:
+			gr.G = 1
+		case 1:
+			gr.G = r.Range(2, 4)
+		default:
+			gr.G = gr.Burst
+		}
+		groups[k] = gr
+		n += gr.Trickle + gr.Burst
+	}
+	cfg := fmt.Sprintf("NewThrottle(%d, %v) period=%v groups=%+v", count, period*time.Duration(count), period, groups)
+
+	tr := &throttleRec{id: e.ID()}
+	rets := make([]throttleRet, n+1)
+	for i := range rets {
+		rets[i] = tr.plan(r, i)
+	}
+	t0 := time.Now()
+	tr.th = middleware.NewThrottle(count, period*time.Duration(count))
+	defer stopThrottle(tr.th)
+	done := make(chan struct{})
+	go func() {
+		defer close(done)
+		i := 0
+		for k, gr := range groups {
+			switch gr.Before {
+			case "idle":
+				vlib.TimerWait(time.Duration(gr.Periods) * period)
+			case "trickle":
+				for j := 0; j < gr.Trickle; j++ {
+					vlib.TimerWait(time.Duration(gr.Periods) * period / 2)
+					i++
+					tr.call(i, 2*k, rets[i])
+				}
+				vlib.TimerWait(time.Duration(gr.Periods) * period / 2)
+			}
+			// the backlog: all messages of the burst exist before the first worker is released
+			work := make(chan int, gr.Burst)
+			for j := 0; j < gr.Burst; j++ {
+				i++
+				work <- i
+			}
+			close(work)
+			release := make(chan struct{})
+			var wg sync.WaitGroup
+			for w := 0; w < gr.G; w++ {
+				wg.Add(1)
+				go func() {
+					defer wg.Done()
+					<-release
+					for i := range work {
+						tr.call(i, 2*k+1, rets[i])
+					}
+				}()
+			}
+			close(release)
+			wg.Wait()
+		}
+	}()
+	oc, dump := vlib.WaitClosed(done, waitOpts())
+	res.Sig = vlib.Sig("throttle-arrivals", cfg)
+	switch oc {
+	case vlib.Stuck:
+		res.Fail("blocks", "throttled calls never finished (process quiescent) | %s", cfg)
+		res.Witness = dump
+		return res
+	case vlib.Inconclusive:
+		res.Inconclusive("throttled calls did not finish before the watchdog | %s", cfg)
+		return res
+	}
+	if !throttleJudge(&res, tr, n, t0, period, cfg) {
+		return res
+	}
+	// what the arrival pattern produced: starts that followed the release of their burst within half a period
+	// (on a correct Throttle: the one saved tick, plus whatever tick happened to be due)
+	tr.mu.Lock()
+	first := map[int]time.Time{}
+	for _, c := range tr.done {
+		if f, ok := first[c.grp]; !ok || c.b.Before(f) {
+			first[c.grp] = c.b
+		}
+	}
+	prompt := 0
+	for _, c := range tr.done {
+		if c.grp%2 == 1 && c.t.Sub(first[c.grp]) < period/2 {
+			prompt++
+		}
+	}
+	tr.mu.Unlock()
+	for _, gr := range groups {
+		res.Count("bursts", 1)
+		res.Count("bursts_after_"+gr.Before, 1)
+		res.Count("trickled_calls", gr.Trickle)
+		if gr.G == gr.Burst {
+			res.Count("bursts_one_goroutine_per_message", 1)
+		}
+	}
+	res.Count("starts_within_half_period_of_burst_arrival", prompt)
+	res.NonTrivial = true
 	return res
 }
